@@ -465,3 +465,53 @@ func H_baseName(n int) {
 	verifAssert(genBasePlaceholderName(&ast.PrintNode{Arg: &ast.DataRefNode{Key: "x", Access: []ast.Node{&ast.DataRefKeyNode{Key: id}}}}, "XXX") == want, "base name of a field")
 	verifAssert(genBasePlaceholderName(&ast.PrintNode{Arg: &ast.DataRefNode{Key: id, Access: []ast.Node{&ast.DataRefIndexNode{Index: 0}}}}, "XXX") == "XXX", "base name of an indexed reference")
 }
+
+var c10TagAlphabet = []byte("abipZ1-:_ ")
+
+var c10Pretty = map[string]string{"a": "link", "br": "break", "b": "bold", "i": "italic", "li": "item", "ol": "ordered_list",
+	"ul": "unordered_list", "p": "paragraph", "img": "image", "em": "emphasis"}
+
+// H_tagName: the placeholder base name of an html tag (form 0 <n>, 1 </n>, 2 <n/>, 3 <n x="1">)
+// whose name part is n characters over {a,b,i,p,Z,1,-,:,_,space}: START_/END_/"" + the official
+// pretty name or the leading alphanumeric run of the name, upper-cased with the official
+// underscore rules.
+func H_tagName(n, form int) {
+	b := make([]byte, n)
+	for i := range b {
+		b[i] = c10TagAlphabet[verifChoose(len(c10TagAlphabet))]
+	}
+	name := string(b)
+	first := name[0]
+	if !(first >= 'a' && first <= 'z' || first >= 'A' && first <= 'Z') {
+		return // not a tag the parser produces
+	}
+	var text, kind string
+	switch form {
+	case 0:
+		text, kind = "<"+name+">", "START_"
+	case 1:
+		text, kind = "</"+name+">", "END_"
+	case 2:
+		text, kind = "<"+name+"/>", ""
+	case 3:
+		text, kind = "<"+name+" x=\"1\">", "START_"
+	}
+	j := 0
+	for j < len(name) && (name[j] >= 'a' && name[j] <= 'z' || name[j] >= 'A' && name[j] <= 'Z' || name[j] >= '0' && name[j] <= '9') {
+		j++
+	}
+	tag := ""
+	for i := 0; i < j; i++ {
+		c := name[i]
+		if c >= 'A' && c <= 'Z' {
+			c += 'a' - 'A'
+		}
+		tag += string(c)
+	}
+	if p, ok := c10Pretty[tag]; ok {
+		tag = p
+	}
+	verifObserve("tag", text)
+	got := genBasePlaceholderName(&ast.MsgHtmlTagNode{Text: []byte(text)}, "XXX")
+	verifAssert(got == refUpperUnderscore(kind+tag), "placeholder base name of an html tag differs from the official one")
+}
